@@ -87,15 +87,20 @@ GNUC_SHIFT = {"match": r"shift operand is negative in \(signed int\)\*phrase << 
 DES_CHECKS = ["--bounds-check", "--pointer-check", "--pointer-overflow-check", "--div-by-zero-check",
               "--signed-overflow-check", "--pointer-primitive-check", "--no-undefined-shift-check"]
 DES_EXTRA = {"checks": DES_CHECKS, "assumptions": ["A-gnuc: " + GNUC_SHIFT["reason"]], "unwind": 67, "bound": "phrase shorter than 512 bytes (do_crypt's guarantee): the key-folding loops are unwound 66 times, complete for it",
-             "timeout": 900}
+             "timeout": 1200, "mem_gb": 14}
 
 def _both(name, define, loops, functions, extra=None):
     return [_method(name, define, loops, functions, extra=extra),
             _method(name, define, loops, functions, weak=True, extra=extra)]
 
 JOBS += _both("nt", "M_nt", NT_LOOPS, ["crypt_nt_rn"], extra={"wip": True, "bounds": {"SPAN": 64, "STR": 32, "SPANEXACT": 24, "STRCPY": 384}, "unwind": 18})
-JOBS += _both("sunmd5", "M_sunmd5", SUNMD5_LOOPS, ["crypt_sunmd5_rn"],
-              extra={"late_src": ["models/snprintf.c"], "replace_calls": ["muffet_coin_toss:muffet_coin_toss_stub"], "timeout": 900, "mem_gb": 8})
+SUNMD5_EXTRA = {"late_src": ["models/snprintf.c"], "replace_calls": ["muffet_coin_toss:muffet_coin_toss_stub"], "timeout": 900, "mem_gb": 8}
+JOBS += [_method("sunmd5", "M_sunmd5", SUNMD5_LOOPS, ["crypt_sunmd5_rn"], extra=dict(SUNMD5_EXTRA, set_cap=128, tier="thorough", timeout=2400)),
+         _method("sunmd5", "M_sunmd5", SUNMD5_LOOPS, ["crypt_sunmd5_rn"], weak=True, extra=SUNMD5_EXTRA)]
 JOBS += _both("descrypt", "M_descrypt", [], ["crypt_descrypt_rn", "des_gen_hash", "ascii_to_bin"], extra=DES_EXTRA)
 JOBS += _both("bigcrypt", "M_bigcrypt", [], ["crypt_bigcrypt_rn", "crypt_descrypt_rn", "des_gen_hash", "ascii_to_bin"], extra=DES_EXTRA)
-JOBS += _both("bsdicrypt", "M_bsdicrypt", [], ["crypt_bsdicrypt_rn", "des_gen_hash", "ascii_to_bin"], extra=DES_EXTRA)
+JOBS += [_method("bsdicrypt", "M_bsdicrypt", [], ["crypt_bsdicrypt_rn", "des_gen_hash", "ascii_to_bin"], extra=DES_EXTRA),
+         # the weak-precondition variant runs out of memory (23 GB) with the
+         # unbounded for(;;) key-folding loop unwound over an exact-size phrase object
+         _method("bsdicrypt", "M_bsdicrypt", [], ["crypt_bsdicrypt_rn", "des_gen_hash", "ascii_to_bin"], weak=True,
+                 extra=dict(DES_EXTRA, wip=True))]
